@@ -678,19 +678,25 @@ class NN:
         m = self.R.mode_subst(q, mode)
         out = []
         for e in s.events:
-            trip = None
-            extra_guards, extra_loops = [], []
+            cands = []          # (triplet components, kind, extra guards, extra loops)
             if e.kind == "mutate" and e["method"] in ("append", "add") and len(e["args"]) == 1:
                 a0 = strip(e["args"][0])
                 if head(a0) == "tuple" and len(a0[1]) == 3:
-                    trip, kind, coll = a0[1], e["method"], e["old"]
+                    cands.append((a0[1], e["method"], [], []))
+            elif e.kind == "mutate" and e["method"] in ("update", "extend") and len(e["args"]) == 1:
+                # ans.update(((i, j, d), (j, i, d))): one insertion per listed triplet
+                a0 = strip(e["args"][0])
+                if head(a0) in ("tuple", "list", "set") and a0[1] and all(head(strip(x)) == "tuple" and len(strip(x)[1]) == 3 for x in a0[1]):
+                    for x in a0[1]:
+                        cands.append((strip(x)[1], "add" if e["method"] == "update" else "append", [], []))
             elif e.kind == "augname" and e["op"] == "+":
                 v = strip(e["value"])
                 if head(v) == "comp" and v[1] == "list" and head(strip(v[2])) == "tuple" and len(strip(v[2])[1]) == 3:
-                    trip, kind, coll = strip(v[2])[1], "comp", e["old"]
+                    xg, xl = [], []
                     for elem, conds in v[3]:
-                        extra_loops.append((None, elem[3]))
-                        extra_guards.extend((c, True) for c in conds)
+                        xl.append((None, elem[3]))
+                        xg.extend((c, True) for c in conds)
+                    cands.append((strip(v[2])[1], "comp", xg, xl))
                 elif self.trip_spaces(q, v) is not None:
                     sp = self.trip_spaces(q, v)
                     site = Site(q, e.node, None, None, None, [], [], "bulk", e["old"])
@@ -700,15 +706,48 @@ class NN:
                         site.guards = g2
                         out.append(site)
                     continue
-            if trip is None:
-                continue
-            g2 = self.fold_guards(list(e.ctx.guards) + extra_guards, m)
-            if g2 is None:
-                continue
-            loops = [(l, fold(s.loops[l].iterable, m)) for l in e.ctx.loops] + [(None, fold(x, m)) for _, x in extra_loops]
-            site = Site(q, e.node, fold(trip[0], m), fold(trip[1], m), fold(trip[2], m), g2, loops, kind, e["old"])
-            out.append(site)
+            if cands:
+                # a condition established by an earlier ``assert`` is a claim, not a filter: it drops no pair
+                asserted = {strip_all(a["cond"]) for a in s.events_of("assert") if a.seq < e.seq}
+            for trip, kind, extra_guards, extra_loops in cands:
+                base = [(g, pol) for g, pol in e.ctx.guards if not (pol and strip_all(g) in asserted)]
+                claims = [(g, pol) for g, pol in e.ctx.guards if pol and strip_all(g) in asserted]
+                for d_term, guards in self._distance_variants(trip[2], base + extra_guards):
+                    g2 = self.fold_guards(guards, m)
+                    if g2 is None:
+                        continue
+                    loops = [(l, fold(s.loops[l].iterable, m)) for l in e.ctx.loops] + [(None, fold(x, m)) for _, x in extra_loops]
+                    site = Site(q, e.node, fold(trip[0], m), fold(trip[1], m), fold(d_term, m), g2, loops, kind, e["old"])
+                    site.extra["asserted"] = self.fold_guards(claims, m) or []
+                    out.append(site)
         return out
+
+    def _distance_variants(self, d, guards):
+        """A distance obtained from a helper introduced after the rules were validated (``dist = _helper(a, b, ...)`` returning None for
+        'not a neighbour') is read through the helper: one variant per non-None leaf of its decision tree, the ``dist is not None`` guard
+        replaced by the path condition of that leaf.  [(distance term, guards)]"""
+        from .rules import inline_new_helpers, lift_ite
+        from .ssa import leaves
+        d0 = strip_all(d)
+        if not (is_call(d0) and head(strip(d0[1])) == "glob" and strip(d0[1])[1] in self.P.functions):
+            return [(d, guards)]
+        inl = strip_all(inline_new_helpers(self.r, d0))
+        if inl == d0:
+            return [(d, guards)]
+
+        def none_test(g, pol):
+            g = strip_all(g)
+            return head(g) == "cmp" and g[2] == d0 and is_const(g[3], None) and ((g[1] in ("isnot", "!=") and pol) or (g[1] in ("is", "==") and not pol))
+        tested = any(none_test(g, pol) for g, pol in guards)
+        rest = [(g, pol) for g, pol in guards if not none_test(g, pol)]
+        out = []
+        for path, leaf in leaves(lift_ite(inl)):
+            if is_const(strip(leaf), None):
+                if not tested:
+                    return [(d, guards)]        # a None distance would be inserted: left to the classifier as an unreadable value
+                continue
+            out.append((leaf, rest + list(path)))
+        return out or [(d, guards)]
 
     def pipeline(self, q, t, mapping):
         """Unwrap a worker's returned triplet pipeline: comp -> filter* -> sorted -> [0:L].
